@@ -500,8 +500,15 @@ class FileIndex(Index):
         from whoosh.reading import SegmentReader, MultiReader, EmptyReader
 
         if reuse:
-            # Merge segments with reuse segments
-            segments.extend([segment for segment in reuse.segments() if segment not in segments])
+            # A reader this method opened knows its generation, and its
+            # segment is current only if the TOC still lists it. A leaf reader
+            # without a generation was added by hand (the in-memory documents
+            # of a BufferedWriter): carry its segment over
+            for r, _ in reuse.leaf_readers():
+                segment = r.segment()
+                if (r.generation() is None and segment is not None
+                    and segment not in segments):
+                    segments.append(segment)
 
         reusable = {}
         try:
